@@ -34,6 +34,14 @@ static void apply_basis (Args& A)
   else throw ProtocolError ("basis");
 }
 
+// the element of a product that may come back as Jones<T> or as Jones<complex<T>> (biquaternion on the left)
+static inline CRat elt (const CRat& z) { return z; }
+static inline CRat elt (const std::complex<CRat>& z) { return CRat (z.real().real(), z.imag().real()); }
+static inline Rat junk (const CRat&) { return Rat (0); }
+static inline Rat junk (const std::complex<CRat>& z) { Rat a = z.real().imag(), b = z.imag().imag(); return a*a + b*b; }
+template<typename X> static Jones<Rat> toJR (const Jones<X>& r) { return Jones<Rat> (elt (r.j00), elt (r.j01), elt (r.j10), elt (r.j11)); }
+template<typename X> static Rat junkOf (const Jones<X>& r) { return junk (r.j00) + junk (r.j01) + junk (r.j10) + junk (r.j11); }
+
 struct BasisRestore { ~BasisRestore () { Pauli::basis().set_basis (Signal::Linear); } };
 
 int main ()
@@ -144,8 +152,26 @@ int main ()
   OP("cv.toH") { auto a=A.jones(); O.put (convert(a)); };
   OP("cv.toU") { auto a=A.jones(); O.put (unitary(a)); };
   OP("pauli.matrix") { unsigned i=A.nat(); Jones<double> m = Pauli::matrix(i); Jones<Rat> r (m); O.put (r); };
+  // scalars passed in another arithmetic type (the division template accepts any): J / k and J * k for an integer k given as
+  // int, long, unsigned, short agree with the exact-rational scalar.  Output: residuals
+  OP("o.c04.intscalar") { auto j=A.jones(); int k=A.integer(); Rat rk (k);
+    JR ref = j; ref /= rk;
+    O.put (JR(JR(j / k) - ref)); O.put (JR(JR(j / (long) k) - ref)); O.put (JR(JR(j / (short) k) - ref));
+    if (k > 0) O.put (JR(JR(j / (unsigned) k) - ref));
+    JR prod = j; prod *= rk; O.put (JR(JR(j * Rat(k)) - prod)); O.put (JR(JR(Rat(k) * j) - prod));
+    JR back = j / k; back *= rk; O.put (JR(back - j)); };
+  // the four basis matrices requested in a given order (the first request of a process may be any of them): each is the
+  // matrix of its own index.  Output: entry-wise differences from sigma_0..sigma_3
+  OP("o.c15.pauliorder") { for (int t=0;t<4;t++) { unsigned i=A.nat(); Jones<double> m = Pauli::matrix(i); Jones<Rat> r (m);
+      CRat z (0), one (1), mone (-1), I (Rat(0), Rat(1)), mI (Rat(0), Rat(-1));
+      JR e = (i == 0) ? JR (one, z, z, one) : (i == 1) ? JR (one, z, z, mone) : (i == 2) ? JR (z, one, one, z) : JR (z, mI, I, z);
+      O.put (JR(r - e)); } };
   OP("mx.JQh") { auto j=A.jones(); auto q=A.biquat<H>(); O.put (Jones<Rat>(j*q)); };
   OP("mx.JQu") { auto j=A.jones(); auto q=A.biquat<U>(); O.put (Jones<Rat>(j*q)); };
+  // a biquaternion on the left of a Jones matrix (the product comes back as Jones<complex<T>>: the real and imaginary parts of its
+  // elements are themselves complex numbers whose real parts carry the matrix)
+  OP("mx.QhJ") { auto q=A.biquat<H>(); auto j=A.jones(); auto r = q*j; O.put (toJR (r)); Rat k = junkOf (r); for (int i=0;i<8;i++) O.put (Rat(i ? Rat(0) : k)); };
+  OP("mx.QuJ") { auto q=A.biquat<U>(); auto j=A.jones(); auto r = q*j; O.put (toJR (r)); Rat k = junkOf (r); for (int i=0;i<8;i++) O.put (Rat(i ? Rat(0) : k)); };
   OP("mx.JqhR") { auto j=A.jones(); auto q=A.quat<H>(); O.put (Jones<Rat>(j*q)); };
   OP("mx.qhRJ") { auto q=A.quat<H>(); auto j=A.jones(); O.put (Jones<Rat>(q*j)); };
   OP("mx.JquR") { auto j=A.jones(); auto q=A.quat<U>(); O.put (Jones<Rat>(j*q)); };
@@ -254,7 +280,11 @@ int main ()
     O.put (JR(JR(j*bh) - j*convert(bh))); O.put (JR(JR(j*bu) - j*convert(bu)));
     O.put (JR(JR(j*h) - j*convert(h))); O.put (JR(JR(j*u) - j*convert(u)));
     O.put (JR(JR(h*j) - convert(h)*j)); O.put (JR(JR(u*j) - convert(u)*j));
-    O.put (JR(JR(h*u) - convert(h)*convert(u))); O.put (JR(JR(u*h) - convert(u)*convert(h))); };
+    O.put (JR(JR(h*u) - convert(h)*convert(u))); O.put (JR(JR(u*h) - convert(u)*convert(h)));
+    // a biquaternion on the left (the product may be returned as Jones<complex<T>>; see mx.QhJ)
+    { auto r = bh*j; O.put (JR(toJR (r) - convert(bh)*j)); O.put (junkOf (r)); }
+    { auto r = bu*j; O.put (JR(toJR (r) - convert(bu)*j)); O.put (junkOf (r)); }
+  };
 
   // ---- C04 ----
   OP("o.c04.ring") { auto a=A.jones(); auto b=A.jones(); auto c=A.jones(); JR I = JR::identity();
@@ -319,6 +349,15 @@ int main ()
     Stokes<Rat> t = transform (s, j);
     O.put (Stokes<Rat>(t - coherency (JR(JR(j*convert(s))*herm(j)))));
     Matrix<4,4,Rat> M = Mueller (j); O.put (Stokes<Rat>(t - Stokes<Rat>(M*s)));
+    O.put (Rat(t.invariant() - norm(det(j))*s.invariant())); };
+  // the same Jones matrix under two successive bases: Mueller(J) is first evaluated in the first basis (any memory of that
+  // result must not survive the change of basis), then every identity is checked in the second
+  OP("o.c02.transform2") { BasisRestore r; apply_basis (A); auto s=A.stokes(); auto j=A.jones();
+    Matrix<4,4,Rat> M0 = Mueller (j); Stokes<Rat> t0 = transform (s, j); (void) M0; (void) t0;
+    apply_basis (A);
+    Stokes<Rat> t = transform (s, j);
+    O.put (Stokes<Rat>(t - coherency (JR(JR(j*convert(s))*herm(j)))));
+    JR jcopy = j; Matrix<4,4,Rat> M = Mueller (jcopy); O.put (Stokes<Rat>(t - Stokes<Rat>(M*s)));
     O.put (Rat(t.invariant() - norm(det(j))*s.invariant())); };
   OP("o.c02.transformC") { BasisRestore r; apply_basis (A); auto s=A.cstokes(); auto j=A.jones();
     Stokes<CRat> t = transform (s, j); Matrix<4,4,Rat> M = Mueller (j);
